@@ -28,12 +28,13 @@ import (
 )
 
 var rec = hx.NewRecorder("C16",
-	"a case is G in {2,4,8} goroutines with fixed call lists (GraphQL and collection-API writes, counter increments, creates/deletes of own documents, reads, CreateIndex/DropIndex, AddSchema, replicator changes, incoming merges published on the event bus for documents that are also written locally; in shared-transaction mode some goroutines issue everything through one NewConcurrentTxn) run against one node under the race detector, once per GOMAXPROCS value; non-trivial = at least two goroutines acknowledged writes to the same document or shared one transaction, AND a transaction conflict was observed or an incoming merge overlapped a local write of the same document (observed, per repetition)",
+	"a case is G in {2,4,8} goroutines with fixed call lists (GraphQL and collection-API writes, counter increments, creates/deletes of own documents, reads, CreateIndex/DropIndex, AddSchema, replicator changes, incoming merges published on the event bus for documents that are also written locally; in shared-transaction mode some goroutines issue everything through one NewConcurrentTxn) run against one node under the race detector, once per GOMAXPROCS value; one case in four is a merge burst instead (6..24 sibling commits of ONE document, made on separate nodes, blocks copied first, all Merge events published back to back by one or two goroutines while nobody writes that document locally, MaxTxnRetries 1 or 2, the other goroutines only read); non-trivial = a merge burst, or at least two goroutines acknowledged writes to the same document or shared one transaction, AND a transaction conflict was observed or an incoming merge overlapped a local write of the same document (observed, per repetition)",
 	"schedules are those the Go runtime produces (GOMAXPROCS in {2 or 4, 16}, drawn runtime.Gosched points); race detection is happens-before based on the accesses that executed",
 	"a call that returned an error other than a transaction conflict may or may not have had an effect",
 	"MaxTxnRetries is set above the number of commits of a case, so an incoming merge dropped with a conflict cannot be a legitimately exhausted retry loop",
 	"a merge that neither completes nor logs a failure within 75 s ends the run inconclusive, not as a violation",
 	"closing the nodes is not part of the schedule: the harness waits (bounded) for replicator pushes and for the replicator peer's merges before closing, and a race report with a node's Close on either side is not judged",
+	"in a merge burst the merges are the only writers on the node (all other calls are reads) and the merge queue runs the merges of one document one at a time, so a merge dropped with a transaction conflict there is a violation whatever the retry budget; writes of other documents are excluded because the store can report a conflict between a merge and a write of a neighbouring document",
 	"in P2P cases no merges are published by the harness (the replicator peer logs its own merge failures through the same process-wide logger)",
 )
 
@@ -208,6 +209,9 @@ func has(labels []string, l string) bool {
 }
 
 func nontrivial(labels []string) bool {
+	if has(labels, "merge-burst") {
+		return true // 6..24 merges of one document published back to back
+	}
 	return (has(labels, "same-doc-written-by-2+-goroutines") || has(labels, "shared-txn")) &&
 		(has(labels, "conflict-observed") || has(labels, "merge-overlaps-local-write"))
 }
